@@ -17,6 +17,9 @@ import (
 
 func traceOf(c core.Case, out []string) (core.Case, bool) {
 	hdr := core.Toks(c.Lines[0])
+	if isMulti(c) {
+		return core.Case{}, false // traces of multi scripts are not replayed (per-limiter logs interleave)
+	}
 	lines := []string{"@ C19 trace " + hdr[3]}
 	for i := 1; i < len(c.Lines); i++ {
 		t := core.Toks(c.Lines[i])
